@@ -71,8 +71,8 @@ package accum
 //@   loop 1 invariant 0 <= consumed(oa.reader.br) && consumed(oa.reader.br) <= fsize(oa.reader.br)
 //@   loop 1 invariant hdrOk(oa) ==> int(totalOffset) == pos0(oa)
 //@   loop 1 invariant fresh(children)
-//@   # Wanted, needs the builtin freshin(N, x) (engine patch prototyped in /tmp/vcgo-c14/ct-c14-engine.patch, not in bin/vcgo yet):
-//@   #   loop 1 invariant freshin(0, children)
+//@   # the storage of the current group was allocated in this outer iteration, hence differs from every group sent before
+//@   loop 1 invariant freshin(0, children)
 //@   # = the group under construction lives in storage allocated in THIS outer iteration, i.e. after every earlier send,
 //@   # so it cannot alias a group already handed to the consumer.
 //@   loop 1 invariant hdrOk(oa) ==> forall i int :: 0 <= i && i < len(children) ==> oend(children[i]) <= int(totalOffset)
